@@ -246,6 +246,8 @@ def selection(case, reps_sorted, cls):
         step = sel.get('r_step', 1)
         i0 = rng.randrange(0, max(1, len(cl) // 6)) if sel.get('r_start') else None
         i1 = rng.randrange(len(cl) - max(1, len(cl) // 6), len(cl)) if sel.get('r_stop') else None
+        if str(r) in sel.get('r_stop_at', {}):
+            i1 = min(sel['r_stop_at'][str(r)], len(cl) - 1)        # r_stop exactly at this record of this replica
         if len(list(range(i0 or 0, (i1 if i1 is not None else len(cl) - 1) + 1))[::step]) < 5:
             i0 = i1 = None
         rstart.append(None if i0 is None else cl[i0])
